@@ -2,7 +2,7 @@
 From Coq Require Import List Arith NArith Lia Bool ZifyN ZifyNat ZifyBool.
 From FS Require Import Sx Model.Path Model.Fs Model.RootPath Model.CopyFs Model.CopyFsSpec
   Proofs.Lex Proofs.PathP Proofs.FsP Proofs.RootPathStrP Proofs.FsCopyFrameP Proofs.FsCopyInvP
-  Proofs.FsCopySafeP Proofs.FsCopyLinksP Proofs.FsCopySysP Proofs.CopyFsP Proofs.CopyRecP Proofs.CopyFsTopP.
+  Proofs.FsCopySafeP Proofs.FsCopyLinksP Proofs.FsCopySysP Proofs.CopyFsP Proofs.CopyRecP Proofs.CopyFsRec2P Proofs.CopyFsTopP.
 Import ListNotations.
 Open Scope N_scope.
 Open Scope bool_scope.
@@ -30,23 +30,35 @@ Qed.
 Lemma lok_init (c : ctx) f0 dr dcs : lok f0 dr dcs (cst_init f0).
 Proof. intros e He. destruct He. Qed.
 
-(* the recursive copy into "<dstRoot>/cs/x", cs real directories: of the inodes that existed before,
-   only directories at or below dstRoot (reached through real directories) can have changed *)
-Theorem copy_rec_contained_proof fuel c o src ow f0 dr dcs cs x d s' r :
+Lemma deferred_targets_eq dcs : forall pend cs, deferred_targets dcs cs pend = pend_paths dcs cs pend.
+Proof. induction pend as [|p r IH]; intros cs; [reflexivity|]. cbn [deferred_targets pend_paths]. rewrite IH. reflexivity. Qed.
+
+Lemma lok_parents (c : ctx) f0 dr dcs ps : lok f0 dr dcs (cst_with_parents f0 ps).
+Proof. intros e He. destruct He. Qed.
+
+(* the recursive copy into "<dstRoot>/cs/pend/x": cs real directories, pend the directories whose
+   creation is deferred (the uncopied entries of the parentDirs stack), any selector, any flags:
+   of the inodes that existed before, only directories at or below dstRoot (reached through real
+   directories) can have changed *)
+Theorem copy_rec_contained_proof fuel c o sl src comps ow pinc pexc f0 dr dcs cs pend x d ps s' r :
   fs_wf f0 ->
   forallb name_ok dcs = true -> chain f0 (c_root c) dcs dr -> (length dcs < rfuel)%nat ->
-  forallb name_ok cs = true -> name_ok x = true -> chain f0 dr cs d ->
-  copy_rec fuel c o src (render (dcs ++ cs ++ [x])) ow (cst_init f0) = (s', r) ->
+  forallb name_ok cs = true -> forallb name_ok pend = true -> name_ok x = true -> chain f0 dr cs d ->
+  uncopied_targets ps = deferred_targets dcs cs pend ->
+  copy_rec fuel c o sl src comps (render (dcs ++ cs ++ pend ++ [x])) ow pinc pexc (cst_with_parents f0 ps) = (s', r) ->
   forall i, i < f_next f0 -> ~ inside_dir f0 dr i -> get (s_fs s') i = get f0 i.
 Proof.
-  intros W Hdn Hdc Hl Hcn Hxn Hc H i Hi Hout.
+  intros W Hdn Hdc Hl Hcn Hpn Hxn Hc Hps H i Hi Hout.
   pose proof (wf_ctx c f0 dr dcs W Hdn Hdc Hl) as C.
   apply forallb_name_ok in Hcn. destruct Hcn as [Hc1 Hc2].
+  apply forallb_name_ok in Hpn. destruct Hpn as [Hp1 Hp2].
   assert (Hx : nm x /\ nonul x).
   { assert (G : forallb name_ok [x] = true) by (simpl; rewrite Hxn; reflexivity).
     apply forallb_name_ok in G. destruct G as [G1 G2]. inversion G1; inversion G2; auto. }
-  assert (T : Tgt c f0 dr dcs (s_fs (cst_init f0)) cs d x) by (constructor; auto; apply Hx).
-  destruct (copy_rec_spec c f0 dr dcs fuel o src cs d x ow (cst_init f0) s' r T (lok_init c f0 dr dcs) H) as (C' & _).
+  destruct Hx as [Hx1 Hx2].
+  rewrite deferred_targets_eq in Hps.
+  destruct (copy_rec_spec c f0 dr dcs fuel o sl src comps cs d pend x ow pinc pexc (cst_with_parents f0 ps) s' r
+              C Hc Hc1 Hc2 Hp1 Hp2 Hx1 Hx2 Hps (lok_parents c f0 dr dcs ps) H) as ((C' & _) & _).
   apply (inv_frame f0 dr (s_fs s') (cx_inv _ _ _ _ _ C')); auto.
 Qed.
 
@@ -90,13 +102,13 @@ Proof.
 Qed.
 
 (* Copy: of the inodes that existed before, only directories at or below dstRoot can have changed *)
-Theorem copy_contained_proof fuel c o scs src dcs dst matches f0 dr sr s' res :
+Theorem copy_contained_proof fuel c o osl scs src dcs dst matches f0 dr sr s' res :
   fs_wf f0 ->
   forallb name_ok dcs = true -> chain f0 (c_root c) dcs dr -> (length dcs < rfuel)%nat ->
   forallb name_ok scs = true -> chain f0 (c_root c) scs sr -> (length scs < rfuel)%nat ->
   (scs = dcs \/ ~ inside_dir f0 dr sr) ->
   has_nul src = false -> (forall l, matches = Some l -> forallb (fun m => negb (has_nul m)) l = true) ->
-  copy_top fuel c o (render scs) src (render dcs) dst matches (cst_init f0) = (s', res) ->
+  copy_top fuel c o osl (render scs) src (render dcs) dst matches (cst_init f0) = (s', res) ->
   forall i, i < f_next f0 -> ~ inside_dir f0 dr i -> get (s_fs s') i = get f0 i.
 Proof.
   intros W Hdn Hdc Hdl Hsn Hsc Hsl Hsd Hnul Hm H i Hi Hout.
@@ -106,6 +118,6 @@ Proof.
   assert (Hm' : forall l, matches = Some l -> Forall (fun m => has_nul m = false) l).
   { intros l El. specialize (Hm l El). rewrite forallb_forall in Hm. apply Forall_forall. intros x Hx.
     apply negb_true_iff. apply Hm. exact Hx. }
-  pose proof (copy_top_spec c f0 dr dcs (render scs) Hsr fuel o src dst matches (cst_init f0) s' res C (lok_init c f0 dr dcs) Hnul Hm' H) as C'.
+  pose proof (copy_top_spec c f0 dr dcs (render scs) Hsr fuel o osl src dst matches (cst_init f0) s' res C (lok_init c f0 dr dcs) eq_refl Hnul Hm' H) as C'.
   apply (inv_frame f0 dr (s_fs s') (cx_inv _ _ _ _ _ C')); auto.
 Qed.
